@@ -88,8 +88,9 @@ func NewTreePersistent(path string) (*Tree, error) {
 // in-memory, but are lost when loading from disk.
 func (t *Tree) reinit() {
 	// Calculate t.nextPage by finding the first node whose pageID is not set.
+	// Only whole pages can hold a node: the data of a file-backed tree ends with a partial page.
 	t.nextPage = 1
-	for int(t.nextPage)*pageSize < len(t.data) {
+	for (int(t.nextPage)+1)*pageSize <= len(t.data) {
 		n := t.node(t.nextPage)
 		if n.pageID() == 0 {
 			break
